@@ -912,7 +912,8 @@ def remap_by_types(
             elif ((dc := self.lookup_type(t_node.value)) is not None) and is_dataclass(dc):
                 dc_types = get_type_hints(dc)
                 _slice = ast.literal_eval(t_node.slice)
-                if _slice not in dc_types:
+                # A key that cannot be hashed (a list, ...) is certainly not one of the fields
+                if not isinstance(_slice, str) or _slice not in dc_types:
                     raise ValueError(
                         f"Key {ast.unparse(t_node.slice)} not found in dataclass/dictionary {dc}"
                     )
